@@ -25,7 +25,7 @@ RULES = {
     "C18": [("sa.rules.b4", "r_ledger"), ("sa.rules.c14", "r_ledger2"), ("sa.rules.c14", "r_C15i"), ("sa.rules.c17", "r_C17jkl"), ("sa.rules.c17", "r_C18i"), ("sa.rules.c14", "r_C14inst"), ("sa.rules.c17e", "r_C17eval"), ("sa.rules.cdrv", "r_driver"), ("sa.rules.c17e", "r_C17importuri"), ("sa.rules.c17e", "r_C15eval"), ("sa.rules.c17e", "r_globalrepo")],
     "C19": [("sa.rules.b6", "r_C19a_C01"), ("sa.rules.c16", "r_cachekeys"), ("sa.rules.c22", "r_visitor"), ("sa.rules.c01e", "r_C01visitors"), ("sa.rules.cmisc", "r_C06bcd"), ("sa.rules.c21", "r_matchvisitors"), ("sa.rules.c16", "r_parseroverrides")],
     "C20": [("sa.rules.b1", "r_C20a"), ("sa.rules.b6", "r_C19a_C01"), ("sa.rules.c16", "r_cachekeys"), ("sa.rules.c22", "r_visitor"), ("sa.rules.c21", "r_matchvisitors"), ("sa.rules.cpn", "r_processnode"), ("sa.rules.c01e", "r_C01visitors"), ("sa.rules.cmeta", "r_mmfromstr"), ("sa.rules.c16", "r_sharedbase")],
-    "C21": [("sa.rules.b6", "r_C19a_C01"), ("sa.rules.c16", "r_cachekeys"), ("sa.rules.c22", "r_visitor"), ("sa.rules.c21", "r_matchvisitors"), ("sa.rules.c01e", "r_C01visitors"), ("sa.rules.c02", "r_C02eval"), ("sa.rules.cmeta", "r_mmfromstr")],
+    "C21": [("sa.rules.b6", "r_C19a_C01"), ("sa.rules.c16", "r_cachekeys"), ("sa.rules.c22", "r_visitor"), ("sa.rules.c21", "r_matchvisitors"), ("sa.rules.c01e", "r_C01visitors"), ("sa.rules.c02", "r_C02eval"), ("sa.rules.cmeta", "r_mmfromstr"), ("sa.rules.c25e", "r_resolverefs")],
     "C22": [("sa.rules.c22", "r_rule_params_eval"), ("sa.rules.b6", "r_C19a_C01"), ("sa.rules.b6", "r_C17ad_C22b"), ("sa.rules.c22", "r_visitor"), ("sa.rules.c22", "r_C22jk"), ("sa.rules.c21", "r_matchvisitors"), ("sa.rules.cpn", "r_processnode"), ("sa.rules.cmisc", "r_C06bcd"), ("sa.rules.cmeta", "r_internalload"), ("sa.rules.c01e", "r_C01visitors"), ("sa.rules.c02", "r_C02eval"), ("sa.rules.c25e", "r_resolverefs"), ("sa.rules.cmeta", "r_mmfromstr"), ("sa.rules.c12", "r_C12b")],
     "C23": [("sa.rules.b6", "r_C23"), ("sa.rules.c22", "r_rule_params_eval"), ("sa.rules.c22", "r_visitor"), ("sa.rules.c22", "r_C23g_C24d"), ("sa.rules.c21", "r_matchvisitors"), ("sa.rules.c02", "r_C02eval"), ("sa.rules.c01e", "r_C01visitors"), ("sa.rules.c03e", "r_C03eval"), ("sa.rules.cmisc", "r_C06bcd"), ("sa.rules.cmeta", "r_validateuc"), ("sa.rules.c25e", "r_resolverefs"), ("sa.rules.c25e", "r_resolvecls"), ("sa.peg", "r_C24")],
     "C24": [("sa.peg", "r_C24"), ("sa.rules.c16", "r_cachekeys"), ("sa.rules.c22", "r_C23g_C24d")],
